@@ -196,16 +196,16 @@ func (c *conn) receive() (err error) {
 		} else {
 			err = core.InvalidResponseError{Response: body}
 		}
-		// the error is the answer to ONE request: its caller gets it, the
-		// other pending calls only learn that the server closes the
-		// connection after an error frame
+		// the error is the answer to ONE request: its caller gets it (if it
+		// is still waiting), the other pending calls only learn that the
+		// server closes the connection after an error frame
 		if resultChan, loaded := c.loadAndDelete(index); loaded {
 			resultChan <- data{
 				Index: index,
 				Error: err,
 			}
-			err = core.ErrClosed
 		}
+		err = core.ErrClosed
 		return
 	}
 	if resultChan, loaded := c.loadAndDelete(index); loaded {
